@@ -49,6 +49,7 @@ def swarm(rng, tier: str, *, profile: str = "edit") -> dict:
         "rich_values": on(0.3, 0.6),
         # equal values on purpose: bindings that compare equal (same leaf name, value and trivia) in one document
         "dup_values": on(0.25, 0.3),
+        "in_body_comment": on(0.2, 0.3),
         "lambda": on(0.35, 0.45),
         "with": on(0.2, 0.35),
         "assert": on(0.1, 0.25),
@@ -230,6 +231,9 @@ class DocGen:
             head.append(self.let_block())
         for _ in range(nlets):
             head.append(self.let_block())
+        if nlets and cfg.get("in_body_comment") and rng.random() < 0.6:
+            # own-line comment (or blank line) between `in` and the body: trivia that belongs to the body
+            head.append(rng.choice([self.comment("b") + "\n", "\n"]))
         rec = cfg["rec"] and rng.random() < 0.3
         body = self.set_text(0, rec=rec)
         if paren:
